@@ -125,7 +125,7 @@ def gen_cases(rng, tier):
             cs.append(_case(rng, 200, ns=2, nc=rng.choice([1, 2]), clen=rng.choice([100, 130])))
         n = 15
     else:
-        n = 200
+        n = 160
     for _ in range(n):
         cs.append(_case(rng, exh, ns=rng.choice([1, 2, 3, 4, 5, 6]), nc=rng.choice([2, 3, 5, 6])))
     return cs
